@@ -250,17 +250,25 @@ def _eval_chunk(args):
     modname, chunk, case_timeout = args
     mod = importlib.import_module(modname)
     out = []
+    confirmed_timeouts = 0
     for idx, case in chunk:
         try:
             res = with_timeout(mod.run_impl, case_timeout, case)
         except CaseTimeout:
+            # a loaded machine can stall a worker for seconds: a timeout counts only if the case, re-run
+            # alone with a ten times larger budget, still does not return (at most 3 such retries per chunk)
             res = {"__timeout__": True}
+            if confirmed_timeouts < 3:
+                try:
+                    res = with_timeout(mod.run_impl, case_timeout * 10, case)
+                except CaseTimeout:
+                    confirmed_timeouts += 1
         except Exception as e:  # harness-level failure in run_impl is a harness error
             res = {"__harness_error__": "".join(traceback.format_exception_only(type(e), e)).strip(),
                    "__tb__": traceback.format_exc()[-1500:]}
         try:
             if isinstance(res, dict) and res.get("__timeout__"):
-                orc = f"no result within {case_timeout}s (watchdog)"
+                orc = f"no result within {case_timeout * 10}s (watchdog)"
             elif isinstance(res, dict) and "__harness_error__" in res:
                 orc = None
             else:
@@ -334,7 +342,10 @@ def oracle_fails(mod, case, case_timeout):
     try:
         res = with_timeout(mod.run_impl, case_timeout, case)
     except CaseTimeout:
-        return f"no result within {case_timeout}s (watchdog)"
+        try:
+            res = with_timeout(mod.run_impl, case_timeout * 10, case)
+        except CaseTimeout:
+            return f"no result within {case_timeout * 10}s (watchdog)"
     return mod.oracle(case, res)
 
 
@@ -582,10 +593,10 @@ def do_replay(mod, path, case_timeout):
         return 0
     case = body["case"]
     try:
-        res = with_timeout(mod.run_impl, case_timeout, case)
+        res = with_timeout(mod.run_impl, case_timeout * 10, case)
     except CaseTimeout:
         res = {"__timeout__": True}
-    msg = f"no result within {case_timeout}s" if isinstance(res, dict) and res.get("__timeout__") else mod.oracle(case, res)
+    msg = f"no result within {case_timeout * 10}s" if isinstance(res, dict) and res.get("__timeout__") else mod.oracle(case, res)
     print("case:", jdump(case)[:2000])
     print("impl:", jdump(canon(res))[:2000])
     if getattr(mod, "DRIVER", None) and body.get("kind") == "correspondence":
